@@ -523,25 +523,11 @@ Section NoPanic.
     apply nth_error_Some. rewrite En. discriminate.
   Qed.
 
-  Lemma np_edit_yank_pop_at size text s :
-    J s -> size <= pos (e_line s) -> bd (buf (e_line s)) (pos (e_line s) - size) ->
-    npr s (edit_yank_pop U cfg size text s).
+  Lemma np_edit_yank_pop size text : np (edit_yank_pop U cfg size text).
   Proof.
-    intros HJ Hle Hbd. unfold edit_yank_pop. apply np_at_bind.
-    assert (Hkl : keeps_line changes_begin).
-    { unfold changes_begin. intros s0 a s' H. apply ebind_inv in H. destruct H as [x [s1 [H1 H]]]. inversion H1; subst.
-      destruct (cs_begin (e_changes s1)) as [c mark]. apply ebind_inv in H. destruct H as [y [s2 [H2 H]]].
-      inversion H2; subst. inversion H; subst. reflexivity. }
-    pose proof (np_keep changes_begin (fun b => size <= pos b /\ bd (buf b) (pos b - size)) np_changes_begin Hkl s HJ (conj Hle Hbd)) as H.
-    destruct (changes_begin s) as [mark s1| | |]; auto. destruct H as [HJ1 [Hle1 Hbd1]].
-    apply np_at_bind.
-    pose proof (np_lb_changes_at (yank_pop size text) s1 HJ1) as H2.
-    assert (Hpre : exists a b' ev, yank_pop size text (e_line s1) = Ok (a, b', ev) /\ wf b').
-    { apply (yank_pop_total size text). destruct HJ1 as [Hw1 _]. repeat split; assumption. }
-    specialize (H2 Hpre (good_yank_pop _ _) (kg_yank_pop _ _)). unfold npr in H2.
-    destruct (lb_changes U (yank_pop size text) s1) as [r s2| | |]; auto.
-    apply np_apply; [|exact H2]. apply np_bind; [destruct r; np_q|]. intros _.
-    apply np_bind; [apply np_changes_end|]. intros _. np_q.
+    unfold edit_yank_pop. apply np_bind; [apply np_changes_begin|]. intros _.
+    apply np_bind; [apply np_lb_changes; [apply yank_pop_total|apply good_yank_pop|apply kg_yank_pop]|]. intros r.
+    apply np_bind; [destruct r; np_q|]. intros _. apply np_bind; [apply np_changes_end|]. intros _. np_q.
   Qed.
 
   (* ---------- every command ---------- *)
@@ -625,47 +611,25 @@ Section NoPanic.
     apply np_bind; [apply np_set_kr; exact Hk'|]. intros _. np_q.
   Qed.
 
-  Lemma np_cmd_yank_pop s :
-    J s -> yank_ok s ->
-    npr s ((edo s <- eget; let '(k', r) := kr_yank_pop (e_kr s) in
-            set_kr k' ;;; (match r with Some (size, text) => edit_yank_pop U cfg size text | None => eret tt end) ;;; eret Proceed) s).
+  Lemma np_cmd_yank_pop : np (edo s <- eget; let '(k', r) := kr_yank_pop (e_kr s) in
+                              set_kr k' ;;; (match r with Some (size, text) => edit_yank_pop U cfg size text | None => eret tt end) ;;; eret Proceed).
   Proof.
-    intros HJ Hy. unfold ebind at 1. cbn [eget].
-    pose proof (kr_yank_pop_inv (e_kr s) ltac:(apply HJ)) as Hk.
-    assert (Hr : forall size text, snd (kr_yank_pop (e_kr s)) = Some (size, text) ->
-                 size <= pos (e_line s) /\ bd (buf (e_line s)) (pos (e_line s) - size)).
-    { intros size text. unfold kr_yank_pop, yank_ok in *. destruct (kr_last (e_kr s)) as [|sz|]; try discriminate.
-      destruct (kr_slots (e_kr s)); [discriminate|]. cbv zeta.
-      match goal with |- context [nth_error ?l ?i] => destruct (nth_error l i) end; [|discriminate].
-      cbn [snd]. intros H. inversion H; subst. exact Hy. }
-    destruct (kr_yank_pop (e_kr s)) as [k' r]. cbn [fst snd] in *.
-    apply np_at_bind. cbn [set_kr].
-    match goal with |- npr ?s1 _ => assert (HJ1 : J s1) by (destruct HJ as [Hw [Hi [_ [Hs Hgr]]]]; split; [exact Hw|split; [exact Hi|split; [exact Hk|split; [exact Hs|exact Hgr]]]]) end.
-    apply np_at_bind. destruct r as [[size text]|].
-    - destruct (Hr size text eq_refl) as [Hle Hbd].
-      pose proof (np_edit_yank_pop_at size text _ HJ1 Hle Hbd) as H. unfold npr in H.
-      match goal with |- match ?x with _ => _ end => destruct x as [u s2| | |] end; auto.
-    - cbn. exact HJ1.
+    apply np_get_bind. intros s HJ. apply np_apply; [|exact HJ].
+    pose proof (kr_yank_pop_inv (e_kr s) ltac:(apply HJ)) as Hk. destruct (kr_yank_pop (e_kr s)) as [k' r]. cbn [fst] in Hk.
+    apply np_bind; [apply np_set_kr; exact Hk|]. intros _.
+    apply np_bind; [destruct r as [[size text]|]; [apply np_edit_yank_pop|np_q]|]. intros _. np_q.
   Qed.
 
-  (* THE THEOREM: executing any command from a state satisfying J neither panics nor breaks J
-     (a yank-pop needs what the main loop guarantees: the remembered yank still ends at the cursor) *)
-  Theorem execute_never_panics c s :
-    J s -> (c = CYankPop -> yank_ok s) -> npr s (execute U cfg c s).
+  (* THE THEOREM: executing any command from a state satisfying J neither panics nor breaks J *)
+  Theorem execute_never_panics c : np (execute U cfg c).
   Proof.
-    intros HJ Hy. unfold execute. unfold ebind at 1. cbn [eget]. apply np_at_bind.
+    intros s HJ. unfold execute. unfold ebind at 1. cbn [eget]. apply np_at_bind.
     assert (Hpre : np (match c with
                        | CEndOfFile | CAcceptLine | CAcceptOrInsertLine _ | CNewline =>
                          if match e_hint s with Some _ => true | None => false end || negb (is_default_prompt s)
                          then refresh_line_with_msg U cfg None else eret tt
                        | _ => eret tt
                        end)) by (destruct c; np_q).
-    assert (Hpre_y : c = CYankPop -> (match c with
-                       | CEndOfFile | CAcceptLine | CAcceptOrInsertLine _ | CNewline =>
-                         if match e_hint s with Some _ => true | None => false end || negb (is_default_prompt s)
-                         then refresh_line_with_msg U cfg None else eret tt
-                       | _ => eret tt
-                       end) s = EOk tt s) by (intros ->; reflexivity).
     destruct c; try (specialize (Hpre s HJ); unfold npr in Hpre;
                      match goal with |- match ?x with _ => _ end => destruct x as [u s1| | |] end; auto;
                      try (apply np_apply; [|exact Hpre]; np_all); fail).
@@ -678,7 +642,9 @@ Section NoPanic.
       match goal with |- match ?x with _ => _ end => destruct x as [u s1| | |] end; auto.
       apply np_apply; [|exact Hpre]. apply np_cmd_yank.
     - (* CYankPop *)
-      rewrite (Hpre_y eq_refl). apply np_cmd_yank_pop; [exact HJ|apply Hy; reflexivity].
+      specialize (Hpre s HJ). unfold npr in Hpre.
+      match goal with |- match ?x with _ => _ end => destruct x as [u s1| | |] end; auto.
+      apply np_apply; [|exact Hpre]. apply np_cmd_yank_pop.
   Qed.
 
   (* the state a read starts from satisfies J (the ring is the editor's, reset at the start of the read) *)
@@ -689,13 +655,10 @@ Section NoPanic.
     split; [split; [exact Hok|cbn; discriminate]|]. split; [exact (bd_0 [])|reflexivity].
   Qed.
 
-  (* any sequence of commands none of which is a yank-pop: no panic, J throughout *)
-  Fixpoint no_yank_pop (cs : list cmd) : Prop :=
-    match cs with [] => True | c :: rest => c <> CYankPop /\ no_yank_pop rest end.
-  Theorem commands_never_panic cs : no_yank_pop cs -> np (exec_all U cfg cs).
+  (* any sequence of commands: no panic, J throughout *)
+  Theorem commands_never_panic cs : np (exec_all U cfg cs).
   Proof.
-    induction cs as [|c rest IH]; cbn [exec_all no_yank_pop]; [intros _; np_q|]. intros [Hc Hr].
-    apply np_bind; [|intros _; apply IH; exact Hr].
-    intros s HJ. apply execute_never_panics; [exact HJ|]. intros Hx. congruence.
+    induction cs as [|c rest IH]; cbn [exec_all]; [np_q|].
+    apply np_bind; [apply execute_never_panics|intros _; exact IH].
   Qed.
 End NoPanic.
